@@ -1,3 +1,76 @@
-(* C09 placeholder while the model is being built *)
-From Coq Require Import ZArith List Bool.
-Lemma C09_tmp : True. Proof. exact I. Qed.
+(* C09 -- WorkerPool runs every accepted task exactly once and reports truthfully.
+   Property statements only; proofs are in proofs/PoolP*.v.
+   The model (model/Pool.v) is a labelled transition system over ANY number of spawner threads,
+   worker threads, trigger_shutdown callers and waitall callers plus an optional integrated
+   primary thread; `run c ls s` executes an arbitrary schedule ls (every interleaving of the
+   micro-steps is some ls), so "forall ls" = "for every interleaving, of any length". *)
+From Coq Require Import List Bool Arith.
+Import ListNotations.
+Require Import EV.model.Pool EV.proofs.PoolP1 EV.proofs.PoolP5 EV.proofs.PoolP6 EV.gen.Facts.
+
+(* the configuration of the current source: what trigger_shutdown and the primary loop do is
+   regenerated from the code; mto/protocol: main_thread_only pools are driven by the gateway's
+   submission protocol (the quantifier of C09) *)
+Definition pool_cfg (is_mto : bool) : pcfg :=
+  {| mto := is_mto; keep_pending := pool_keep_pending; mailbox_first := pool_mailbox_first; protocol := is_mto |}.
+Lemma C09_cfg_ok : pool_structure_ok = true /\ forall m, cfg_ok (pool_cfg m).
+Proof. split; [reflexivity|]. intro m. unfold cfg_ok, pool_cfg. cbn. repeat split; auto. Qed.
+
+Section C09.
+Variable m : bool.                              (* thread or main_thread_only *)
+Variables (progs : list (list task)) (primary : bool) (nshut : nat) (waiters : list bool).
+Hypothesis Distinct : NoDup (concat progs).     (* tasks are distinct objects *)
+Variable ls : list lab.                         (* an arbitrary schedule *)
+Let s := run (pool_cfg m) ls (init progs primary nshut waiters).
+
+Theorem C09_invariant : Inv (pool_cfg m) s.
+Proof. apply reachable_inv; [apply (proj2 C09_cfg_ok)|exact Distinct]. Qed.
+
+(* every accepted call is executed at most once, and while it has not started it has exactly one
+   holder (spawner inside spawn / primary-thread mailbox / started thread / primary thread) *)
+Theorem C09_exactly_once : NoDup (started s) /\ forall x, In x (acc s) -> cnt (plist s) x + cnt (started s) x = 1.
+Proof. split; [apply (exactly_once _ _ C09_invariant)|intros x H; apply (accepted_is_owned _ _ _ C09_invariant H)]. Qed.
+
+(* when nothing can move any more, every accepted task has run exactly once and has finished --
+   even when shutdown was triggered right after it was accepted *)
+Theorem C09_no_accepted_task_lost : terminal (pool_cfg m) s -> forall x, In x (acc s) -> In x (fin s) /\ cnt (started s) x = 1.
+Proof. intros T x H. apply (terminal_all_finished _ (proj2 C09_cfg_ok m) s x C09_invariant T H). Qed.
+
+(* waitall / terminate return True only when every task accepted before the call has finished *)
+Theorem C09_waitall_truth : forall k snap, nth_error (wa s) k = Some (ARet true snap) -> forall x, In x snap -> In x (fin s).
+Proof. intros k snap H. apply (waitall_truth _ s k snap C09_invariant H). Qed.
+
+(* no lost wake-up: a caller is blocked only while _running is non-empty, and never in a terminal state *)
+Theorem C09_no_lost_wakeup :
+  (forall k tm snap, nth_error (wa s) k = Some (A3 tm snap false) -> running s <> []) /\
+  (terminal (pool_cfg m) s -> forall k tm snap, nth_error (wa s) k <> Some (A3 tm snap false)).
+Proof.
+  split; [intros k tm snap H; apply (waiter_blocked_only_if_running _ s k tm snap C09_invariant H)|].
+  intros T k tm snap. apply (terminal_no_blocked_waiter _ (proj2 C09_cfg_ok m) s k tm snap C09_invariant T).
+Qed.
+
+(* after shutdown the integrated primary thread leaves integrate_as_primary_thread *)
+Theorem C09_primary_leaves : terminal (pool_cfg m) s -> shut s = true -> pr s = PExit \/ pr s = PNone.
+Proof. intros T Sh. apply (terminal_primary_left _ (proj2 C09_cfg_ok m) s C09_invariant T Sh). Qed.
+End C09.
+Print Assumptions C09_exactly_once.
+Print Assumptions C09_no_accepted_task_lost.
+Print Assumptions C09_waitall_truth.
+Print Assumptions C09_no_lost_wakeup.
+Print Assumptions C09_primary_leaves.
+
+(* spawn after shutdown is refused and changes nothing *)
+Theorem C09_refuse_after_shutdown : forall c s i t ts s', nth_error (sp s) i = Some (S0 (t :: ts)) -> shut s = true ->
+  tstep c s (LSp i) = Some s' ->
+  acc s' = acc s /\ running s' = running s /\ refused s' = t :: refused s /\ started s' = started s /\ wk s' = wk s /\ mailbox s' = mailbox s.
+Proof. exact refused_after_shutdown. Qed.
+
+(* the defect of the pinned tree, as a witness in the model of the ORIGINAL code: spawn hands the
+   task to the mailbox, trigger_shutdown overwrites it, the primary thread reads None and leaves *)
+Definition terminal_b (c : pcfg) (s : st) : bool :=
+  forallb (fun l => match tstep c s l with None => true | Some _ => false end) [LSp 0; LWk 0; LPr; LSh 0; LWa 0; LTimeout 0].
+Example C09_original_loses_task :
+  let c := {| mto := false; keep_pending := false; mailbox_first := false; protocol := false |} in
+  let s := run c [LSp 0; LSp 0; LSp 0; LSp 0; LSh 0; LSh 0; LSh 0; LPr; LPr] (init [[7]] true 1 []) in
+  acc s = [7] /\ started s = [] /\ pr s = PExit /\ terminal_b c s = true.
+Proof. vm_compute. repeat split; reflexivity. Qed.
